@@ -1,5 +1,6 @@
 import Oracle.Proto
 import Oracle.C16Suites
+import Oracle.C16Sync
 /-! Oracle suites of property C16 (linked into `oracle-c16`). -/
 namespace Oracle.C16
 
@@ -11,7 +12,9 @@ def suites : List (String × Suite) := [
   ("syncmap", syncmap), ("syncmap-spec", syncmapSpec),
   ("bucket", bucket), ("bucket-spec", bucketSpec),
   ("syncslice", syncslice),
-  ("bitset", bitset), ("bitset-spec", bitsetSpec)
+  ("bitset", bitset), ("bitset-spec", bitsetSpec),
+  ("lockfacts", lockfacts), ("lockfacts-judge", lockfactsJudge),
+  ("stress", stress)
 ]
 
 end Oracle.C16
